@@ -160,7 +160,7 @@ func runC16(c *eng.Ctx) {
 		}
 		m := c.Fn(cvtT + ".MarshalProtoMetricV1")
 		cases := map[int64]bool{}
-		for _, b := range m.Blocks {
+		for _, b := range eng.BlocksT(m) {
 			for _, in := range b.Instrs {
 				if bo, ok := in.(*ssa.BinOp); ok && bo.Op.String() == "==" && strings.Contains(bo.X.Type().String(), "SimpleFieldType") {
 					if v, ok := eng.ConstInt(bo.Y); ok {
@@ -178,7 +178,7 @@ func runC16(c *eng.Ctx) {
 		// validateMetric rejects the unspecified type
 		v := c.Fn(cvtT + ".validateMetric")
 		rej := false
-		for _, b := range v.Blocks {
+		for _, b := range eng.BlocksT(v) {
 			for _, in := range b.Instrs {
 				if bo, ok := in.(*ssa.BinOp); ok && strings.Contains(bo.X.Type().String(), "SimpleFieldType") {
 					rej = true
